@@ -11,6 +11,8 @@ use std::{
 pub struct Trace {
     w: BufWriter<File>,
     pub n: usize,
+    /// when set, events are kept in memory (the crash driver inserts crash reads between them before writing)
+    pub buf: Option<Vec<Value>>,
 }
 
 impl Trace {
@@ -18,9 +20,10 @@ impl Trace {
         if let Some(p) = path.parent() {
             std::fs::create_dir_all(p).ok();
         }
-        Self { w: BufWriter::new(File::create(path).expect("create trace")), n: 0 }
+        Self { w: BufWriter::new(File::create(path).expect("create trace")), n: 0, buf: None }
     }
     pub fn ev(&mut self, v: Value) {
+        if let Some(b) = self.buf.as_mut() { b.push(v); self.n += 1; return; }
         serde_json::to_writer(&mut self.w, &v).unwrap();
         self.w.write_all(b"\n").unwrap();
         self.w.flush().unwrap(); // the engine may abort the process: every complete event must already be on disk
